@@ -256,11 +256,9 @@ Definition item_action (c : cmd) (it : item) : action :=
   | CRewrite o => rewrite_action (i_old it) (i_sn it) (i_fres it) o
   end.
 
-(* Both commands go on after a failure as far as the correspondence is concerned: tag reports the error
-   and takes the next snapshot; rewrite / repair cancel the listing, but snapshots already loaded by the
-   parallel workers are still processed (the harness lists the snapshots that were taken up).  MAbort
-   (strictly sequential abort) is covered by the theorems as well. *)
-Definition cmd_mode (c : cmd) : mode := match c with CTag _ _ _ => MContinue | CRewrite _ => MContinue end.
+(* tag reports an error for one snapshot and takes the next one; rewrite / repair stop at the first
+   error (ForAllSnapshots does not call the callback any more once it has failed, /repo ac05aded2) *)
+Definition cmd_mode (c : cmd) : mode := match c with CTag _ _ _ => MContinue | CRewrite _ => MAbort end.
 
 (* plan entries of the items that reach the backend; the id of the new file is taken from the
    observation (it is a hash over a random nonce); 0 stands for "no such file was saved" *)
